@@ -77,7 +77,7 @@ def known_findings(pid):
     if os.path.exists(p):
         for line in open(p):
             line = line.strip()
-            if not line or line.startswith("#"):
+            if not line or line.startswith("#") or line.startswith("fixed:"):
                 continue
             e = json.loads(line)
             if e.get("property") == pid and e.get("kind") == "finding":
